@@ -29,6 +29,7 @@ func checkC08(r *Report, p *Program) {
 	r09_tables(r, p, "R08.6")
 	r09_recordSet(r, p, "R08.7")
 	conditionTables(r, p, "R08.8")
+	claimsTables(r, p, "R08.9")
 }
 
 // ---- key domains ----
